@@ -17,6 +17,10 @@ from typing import Callable, Dict, Iterable, List, Optional, Sequence, Tuple
 VERIF = os.path.dirname(os.path.dirname(os.path.abspath(__file__)))
 LEAN_DIR = os.path.join(VERIF, 'lean')
 REPO = os.environ.get('VERIF_REPO', '/repo')
+# the code under test is imported from REPO, never from an installed copy: put it first on the
+# path before anything can import moPepGen
+if REPO not in sys.path:
+    sys.path.insert(0, REPO)
 DRIVER = os.path.join(LEAN_DIR, '.lake', 'build', 'bin', 'mpgdriver')
 PY = '/venv/bin/python'
 GUARD = 'MOPEPGEN_VERIF'
